@@ -208,11 +208,17 @@ def prior_history(rnd, s, kinds):
     return hist
 
 
-def build_delivery(rnd, ffr=False, small=True, with_history=True):
+def build_delivery(rnd, ffr=False, small=True, with_history=True, wrapped=False):
+    """wrapped: 5 slots and two confirmed earlier updates, so that the session's pair is (firmware = last slot, parity = slot 0)"""
     ns, slot, blk, sz, n = pick_geometry(rnd, small)
+    if wrapped:
+        ns = 5
     s = Scn(ns, slot, blk)
     s.cls = "delivery"
-    if with_history and rnd.random() < 0.6:
+    if wrapped:
+        prior_history(rnd, s, ["confirm", "confirm"])
+        s.meta["history"] = ["confirm", "confirm", "(pair wraps the ring end)"]
+    elif with_history and rnd.random() < 0.6:
         kinds = [rnd.choice(["confirm", "confirm", "reject", "cancel"]) for _ in range(rnd.randint(1, 5))]
         prior_history(rnd, s, kinds)
         s.meta["history"] = kinds
@@ -257,7 +263,7 @@ def c18_part(chk):
        the failed fragment re-delivered; compared with the fault-free run"""
     from . import crash as crashmod
     rnd = random.Random(chk.seed + 18)
-    nbase, per_call = (14, 10) if chk.quick() else (400, 60)
+    nbase, per_call = (14, 10) if chk.quick() else (150, 40)
     bases = []
     while len(bases) < nbase:
         b = build_delivery(rnd, small=True, with_history=False)
